@@ -438,6 +438,11 @@ op_merge::next (scon &sc) const
 	st.m_idx = 0;
     }
 
+  // Upstream is drained.  It may be fed again later (the merge may sit
+  // in a sub-expression whose origin gets a new stack, or downstream
+  // of a tine of another merge), so start from a clean slate then.
+  st.m_done = false;
+  st.m_idx = 0;
   return nullptr;
 }
 
